@@ -29,8 +29,13 @@ MShrink(m, e) ==
 \* after the producer stopped and the consumer drained with up-to-date loads nothing committed may remain
 MDrained(m, e) == [m EXCEPT !.ok = m.ok /\ e.pending = 0 /\ Len(m.q) = 0]
 
+\* empty() evaluated with up-to-date loads must not claim "empty" while a committed record is still unconsumed
+\* (BackendWorker::_exit, ManualBackendWorker::poll and the context clean-up decide on it)
+MEmpty(m, e) == [m EXCEPT !.ok = m.ok /\ ~e.bad /\ (e.empty => Len(m.q) = 0)]
+
 MStep(m, e) ==
   CASE e.k = "upw" -> MReserve(m, e)
+    [] e.k = "uempty" -> MEmpty(m, e)
     [] e.k = "write" -> MWrite(m, e)
     [] e.k = "fc" -> MCommit(m, e)
     [] e.k = "upr" -> MPrepRead(m, e)
